@@ -118,6 +118,44 @@ def reference(pool):
     return refs
 
 
+# --- the interpreter's string-hash seed is not an input either -------------------------------------------------------------------------------
+HASHSEED_ITEMS = ["import a\u00b2 as b\u00b3\n", "from m\u00b2 import a\u00b9 as b\u00b3, c\u00bd\n", "def f\u00b2(a\u00b9, *b\u00b3, c\u00b2=1, **d\u00b9): pass\n", "class A\u00b2(B\u00b3, k\u00b9=1): x\u00b2 = y\u00b3\n", "global a\u00b2, b\u00b3\n",
+                  "match v:\n    case A\u00b2(k\u00b9=1, j\u00b3=b\u00b2) | {**r\u00b9}: pass\n", "try:\n    pass\nexcept* E\u00b2 as e\u00b3:\n    type X\u00b9[T\u00b2] = int\n", "x = {a\u00b2: b\u00b3 for c\u00b9 in d\u00bd}\n",
+                  "f(a\u00b2=1, b\u00b3=2, **c\u00b9)\n", "with a\u00b2 as b\u00b3, c\u00b9 as d\u00bd: pass\n", "lambda a\u00b2, b\u00b3=c\u00b9: d\u00bd\n", "type X = int\ntry:\n    pass\nexcept* A:\n    pass\ndef f[T](): pass\n",
+                  "x = 1 1\ny = 2 2\n", "def f(a, a\u00b2, *, a): pass\n", "import \u00e9.\u00b2 as \u00b3, \u00fc\u00b9\n", "nonlocal x\u00b2, y\u00b3\n", "x.a\u00b2.b\u00b3 = y.c\u00b9.d\u00bd\n", "\uff41 = \ufb01 + \u00b5\u00b2\n"]
+
+
+def hashseed_shard(acc, pool, refs, seeds):
+    """the same inputs in fresh interpreters started with other string-hash seeds (set and dict iteration order, str hashes)"""
+    import json
+    import subprocess
+
+    from .. import pool as poolmod
+
+    items = HASHSEED_ITEMS + pool[:: max(1, len(pool) // 250)]
+    want = {s: r for s, r in zip(pool, refs)}
+    code = ("import sys, json\nfrom xv.checks import c13\nc13.worker_init()\n"
+            "print(json.dumps([c13.sig_of(s)[:2] for s in json.load(sys.stdin)]))\n")
+    results = {}
+    for hs in seeds:
+        p = subprocess.run([base.PY, "-c", code], input=json.dumps(items).encode(), capture_output=True, timeout=900, cwd=base.VERIF, env=poolmod.worker_env({"PYTHONHASHSEED": str(hs)}))
+        if p.returncode != 0:
+            acc.inconc("hash-seed child failed", {"hashseed": hs, "stderr": p.stderr.decode("utf-8", "replace")[-300:]})
+            continue
+        results[hs] = json.loads(p.stdout.decode().strip().splitlines()[-1])
+        acc.count("hashseed_children")
+    for i, s in enumerate(items):
+        sigs = {hs: r[i][0] for hs, r in results.items()}
+        if s in want and want[s] is not None:
+            sigs["worker(0)"] = want[s]
+        acc.evals += 1
+        acc.count("hashseed_comparisons")
+        acc.nontrivial(base.h64("hashseed", s))
+        if len(set(sigs.values())) > 1:
+            briefs = {str(hs): r[i][1][:120] for hs, r in results.items()}
+            acc.violation("outcome-depends-on-hash-seed", {"src": s, "hashseeds": list(map(str, sigs))}, {"outcome_by_seed": briefs})
+
+
 class _Registry:
     def __init__(self):
         self.parsers = []
@@ -309,6 +347,9 @@ def run_shard(shard):
     acc = Acc()
     if "replay" in shard:
         c = shard["replay"]
+        if "hashseeds" in c:
+            hashseed_shard(acc, [c["src"]], reference([c["src"]]), [int(h) for h in c["hashseeds"] if str(h).isdigit()])
+            return acc.dump()
         pool = c.get("prefix", []) + [c["src"]]
         refs = reference(pool)
         Mon = monitored_class()
@@ -333,6 +374,8 @@ def run_shard(shard):
         run_threads(acc, pool, refs, rnd, 8, shard["per_thread"], False)
     elif shard["kind"] == "inject":
         run_threads(acc, pool, refs, rnd, 4, shard["per_thread"], True)
+    elif shard["kind"] == "hashseed":
+        hashseed_shard(acc, pool, refs, shard["hashseeds"])
     acc.sample({"kind": shard["kind"], "pool_size": len(pool), "first_inputs": [p[:40] for p in pool[:3]]})
     return acc.dump()
 
@@ -347,6 +390,7 @@ def plan(tier, seed):
         shards.append({"kind": "threads", "seed": seed, "idx": i, "pool": pool, "per_thread": 150 if q else 400})
     for i in range(2 if q else 12):
         shards.append({"kind": "inject", "seed": seed, "idx": i, "pool": pool, "per_thread": 15 if q else 40})
+    shards.append({"kind": "hashseed", "seed": seed, "idx": 0, "pool": pool, "hashseeds": [1, 2, 3, 4, 7] if q else [1, 2, 3, 4, 5, 7, 8, 9, 11, 13, 4242]})
     return {"shards": shards, "shard_timeout": 1800}
 
 
